@@ -34,6 +34,9 @@ type FuncResult struct {
 }
 
 // verifyFuncs generates and discharges the obligations of the selected functions.
+// skipLockOnlyFor: the property being checked (set by cmdCheck).
+var skipLockOnlyFor string
+
 func verifyFuncs(p *Program, keys []string, o runOpts) []*FuncResult {
 	type job struct {
 		ob *Obligation
@@ -52,6 +55,13 @@ func verifyFuncs(p *Program, keys []string, o runOpts) []*FuncResult {
 		go func() {
 			defer wg.Done()
 			for ob := range jobs {
+				if skipLockOnlyFor != "" && skipLockOnlyFor != "C16" && (ob.Kind == "guard" || (len(ob.Tags) == 1 && ob.Tags[0] == "C16")) {
+					// lock-discipline obligations belong to C16 alone and are never assumed
+					// by anything else: other properties' checks do not spend time on them
+					ob.Result = SolverResult{Status: "skipped"}
+					ob.Query = ""
+					continue
+				}
 				if ob.Cover {
 					coverMu.Lock()
 					done := coverSat[ob.Name]
